@@ -35,7 +35,7 @@ def pyrepr(di, wire):
 class C10(Check):
     ID = 'C10'
     TRACE_FILES = ('modulebase.py', 'server.py')
-    TIERS = {'quick': {'runs': 3000, 'wall': 70}, 'thorough': {'runs': 200000, 'wall': 800}}
+    TIERS = {'quick': {'runs': 12000, 'wall': 70}, 'thorough': {'runs': 200000, 'wall': 800}}
     MAX_VIRTUAL = 400
     RULE = ('[a quarter of the cases restart the node on the same loaded configuration and judge the second generation] ' 'case = 1..3 generated module classes + configuration files (1..2 files, merged) configuring a random subset '
             'of parameters (bare value / Param(value) / Param(min, max, unit, visibility, readonly, export)) and module '
